@@ -95,6 +95,8 @@ type FuncContract struct {
 	Trusted     bool
 	NoSafe      bool
 	EffectFree  bool
+	OwnPackage  bool // the contract is applied at call sites of its own package only; other packages keep their own declaration
+	PanicFree   bool // the function is claimed never to panic: any refuted run-time-failure obligation in it is reported, whatever the shape of its obligation set
 	AssumePre   bool // in a local declaration of a function under contract elsewhere: that contract's preconditions are assumed, not checked, at calls from this package
 	LemmaParams []QVar
 	Uses        []string // lemma: functions whose contracts are instantiated (auto-detected otherwise)
@@ -142,7 +144,7 @@ type ContractFile struct {
 var clauseKeywords = map[string]bool{
 	"func": true, "lemma": true, "extern": true, "opaque": true, "pure": true, "props": true, "arith": true,
 	"requires": true, "ensures": true, "modifies": true, "loop": true, "inline": true, "trusted": true,
-	"nosafe": true, "effectfree": true, "uses": true, "ghost": true, "assigns": true, "logged": true, "callsite": true, "where": true, "global": true, "recvfrom": true, "sets": true, "coretypes": true, "appends": true, "splitreturns": true, "purecallback": true, "bounded": true, "reveal": true, "onlyprop": true, "assumepre": true,
+	"nosafe": true, "effectfree": true, "uses": true, "ghost": true, "assigns": true, "logged": true, "callsite": true, "where": true, "global": true, "recvfrom": true, "sets": true, "coretypes": true, "appends": true, "splitreturns": true, "purecallback": true, "bounded": true, "reveal": true, "onlyprop": true, "assumepre": true, "panicfree": true, "ownpackage": true,
 }
 
 var labelRe = regexp.MustCompile(`^([A-Za-z_][A-Za-z0-9_]*)\s*:\s*([^:=].*)$`)
@@ -539,6 +541,10 @@ func ParseContractFile(path, pkgPath string) (*ContractFile, error) {
 				cur.EffectFree = true
 			case "assumepre":
 				cur.AssumePre = true
+			case "panicfree":
+				cur.PanicFree = true
+			case "ownpackage":
+				cur.OwnPackage = true
 			case "uses":
 				cur.Uses = append(cur.Uses, strings.FieldsFunc(rest, func(r rune) bool { return r == ',' || r == ' ' })...)
 			}
